@@ -5,6 +5,7 @@ use crate::gen_alias;
 use crate::gen_dict;
 use crate::gen_fault;
 use crate::gen_flow;
+use crate::gen_freeze;
 use crate::gen_stream;
 use crate::gen_typed;
 use crate::rng::{mix3, tag};
@@ -61,6 +62,14 @@ pub fn generate(profile: &str, seed: u64, index: u64) -> Generated {
         }
         "typed" => {
             let o = gen_typed::generate(seed, fault_free);
+            Generated {
+                script: o.script,
+                kinds: o.kinds,
+                nontrivial: o.nontrivial,
+            }
+        }
+        "freeze" => {
+            let o = gen_freeze::generate(seed, fault_free);
             Generated {
                 script: o.script,
                 kinds: o.kinds,
@@ -474,6 +483,7 @@ pub fn profiles_for(property: &str, tier: &str) -> Vec<(&'static str, u64)> {
         "C09" => vec![("dict", if thorough { 3_000_000 } else { 200_000 })],
         "C11" => vec![("stream", if thorough { 3_000_000 } else { 200_000 })],
         "C12" => vec![("typed", if thorough { 3_000_000 } else { 200_000 })],
+        "C17" => vec![("freeze", if thorough { 2_000_000 } else { 150_000 })],
         "C14" => {
             if thorough {
                 vec![
